@@ -252,6 +252,19 @@ func (e *Env) lookupIdent(name string) (Val, bool) {
 				return fr.params[i], true
 			}
 		}
+		for i, fv := range fr.fn.FreeVars {
+			if fv.Name() == name && i < len(fr.freeVars) {
+				// a captured variable: the source-level name denotes the variable's current value
+				v := fr.freeVars[i]
+				v.Typ = fv.Type()
+				if pt, ok := fv.Type().Underlying().(*types.Pointer); ok {
+					lv := fr.loadPtr(e.heap, v, pt.Elem())
+					lv.Typ = pt.Elem()
+					return lv, true
+				}
+				return v, true
+			}
+		}
 	}
 	if e.pkg != nil {
 		if o := e.pkg.Scope().Lookup(name); o != nil {
@@ -630,7 +643,8 @@ func (e *Env) evalSelector(t *ast.SelectorExpr) Val {
 				return intVal(v.L[1])
 			}
 		}
-		if _, ok := v.Typ.Underlying().(*types.Interface); ok {
+		_, isIface := v.Typ.Underlying().(*types.Interface)
+		if isIface || isAtomicValue(v.Typ) {
 			switch t.Sel.Name {
 			case "dyntype":
 				return intVal(v.L[0])
@@ -648,6 +662,11 @@ func (e *Env) lookupIdentQuiet(name string) (Val, bool) {
 	}
 	if e.fr != nil {
 		for _, p := range e.fr.fn.Params {
+			if p.Name() == name {
+				return Val{}, true
+			}
+		}
+		for _, p := range e.fr.fn.FreeVars {
 			if p.Name() == name {
 				return Val{}, true
 			}
